@@ -153,6 +153,9 @@ type FnV struct {
 	panicking string
 	subSeen map[string]bool
 	curHeld string
+	lastDocWrite string
+	curWriteTarget ssa.Value
+	curWriteKey string
 	published []publishedRef
 	ownRecover bool
 	pendingOrder []string
